@@ -20,6 +20,9 @@ shape, src/virtual.c mute rule, src/player.c volume / pan tails).
   F6); it is proved for the repaired rule (`C14_silence_master_full`); which of the two applies
   to the working tree is decided from the regenerated `nnaRootRule`
   (`C14_silence_master_status`).
+* `C14_pan_*` — `process_pan` (src/player.c): every pan source (channel / default / slid pan, panbrello, pan
+  envelope, random pan swing) is inside the clamp that precedes the separation scaling, so separation 0 gives
+  equal left/right levels and `mix ↦ -mix` exchanges them for every value of every source.
 * `C14_separation*` — separation 0 ⇒ `vol_l = vol_r` and identical left/right frames for a
   whole voice tick; `mix ↦ -mix` negates the pan (C division is odd), swaps `(vol_l, vol_r)`
   and swaps the left/right frames and state of a whole voice tick.
@@ -325,6 +328,80 @@ theorem C14_separation_mirror (fp mix vol : Int) (hfp : 0 ≤ fp ∧ fp ≤ 255)
     exact tdiv100_bounds _ ⟨hlo, hhi⟩
   simp only [voicePan, Bool.false_eq_true, if_false, C14_separation_mirror_pan]
   apply volLR_neg <;> simp only [PAN_SURROUND, panSurround] <;> omega
+
+/-- `CLAMP(finalpan, 0, 255)` -/
+theorem clampPan_range (x : Int) : 0 ≤ clampPan x ∧ clampPan x ≤ 255 := by
+  unfold clampPan
+  split
+  · omega
+  · split <;> omega
+
+/-- **C14_pan_separation_zero**: with stereo separation 0 the pan `process_pan` hands to the mixer is 0 and the
+left and right levels the mixer derives from it are equal — **for every value of every pan source** (channel /
+default / slid pan, panbrello, pan envelope, random pan swing, either player mode) and every voice volume. -/
+theorem C14_pan_separation_zero (p : PanSrc) (vol : Int) (mono : Bool) :
+    processPan p 0 mono false = 0 ∧
+    (volLR vol (processPan p 0 mono false)).1 = (volLR vol (processPan p 0 mono false)).2 ∧
+    level (volLR vol (processPan p 0 mono false)).1 = level (volLR vol (processPan p 0 mono false)).2 := by
+  have h := C14_separation_zero (clampPan (panSum p)) vol mono
+  have e : processPan p 0 mono false = 0 := by
+    simp only [processPan, voicePan, Bool.false_eq_true, if_false]
+    exact h.1
+  refine ⟨e, ?_, ?_⟩
+  · rw [e]; simp [volLR, PAN_SURROUND, panSurround]
+  · rw [e]; simp [volLR, PAN_SURROUND, panSurround]
+
+/-- **C14_pan_separation_mirror**: negating the stereo separation exchanges the left and right levels exactly —
+for every value of every pan source, every separation −100…100, every voice volume (non-surround voices, stereo
+output).  All pan sources are inside the clamp that precedes the separation scaling; a source added after the
+scaling (the seeded defect C14-m7) breaks both this and `C14_pan_separation_zero`. -/
+theorem C14_pan_separation_mirror (p : PanSrc) (mix vol : Int) (hmix : -100 ≤ mix ∧ mix ≤ 100) :
+    processPan p (-mix) false false = -processPan p mix false false ∧
+    volLR vol (processPan p (-mix) false false) = (volLR vol (processPan p mix false false)).swap ∧
+    (level (volLR vol (processPan p (-mix) false false)).1 = level (volLR vol (processPan p mix false false)).2 ∧
+     level (volLR vol (processPan p (-mix) false false)).2 = level (volLR vol (processPan p mix false false)).1) := by
+  have hm := C14_separation_mirror (clampPan (panSum p)) mix vol (clampPan_range _) hmix
+  have hp : processPan p (-mix) false false = -processPan p mix false false := by
+    simp only [processPan, voicePan, Bool.false_eq_true, if_false]
+    exact C14_separation_mirror_pan _ _ _ _
+  refine ⟨hp, hm, ?_⟩
+  have h1 := congrArg Prod.fst hm
+  have h2 := congrArg Prod.snd hm
+  simp only [Prod.fst_swap, Prod.snd_swap] at h1 h2
+  exact ⟨congrArg level h1, congrArg level h2⟩
+
+/-- the pan handed to the mixer is always within −128…128 (or the surround marker): the hypothesis of
+`C14_kernel_levels` holds for every pan source -/
+theorem C14_pan_range (p : PanSrc) (mix : Int) (mono : Bool) (hmix : -100 ≤ mix ∧ mix ≤ 100) :
+    -128 ≤ processPan p mix mono false ∧ processPan p mix mono false ≤ 128 := by
+  have hr := clampPan_range (panSum p)
+  simp only [processPan, voicePan, Bool.false_eq_true, if_false, finalPan]
+  split
+  · omega
+  · have hd : ((mixDiv.getD 100 : Nat) : Int) = 100 := rfl
+    rw [hd]
+    generalize clampPan (panSum p) = fp at hr
+    have hlo : -12800 ≤ (fp - 128) * mix := by
+      rcases Int.le_total 0 mix with hm | hm
+      · have : (-128) * mix ≤ (fp - 128) * mix := Int.mul_le_mul_of_nonneg_right (by omega) hm
+        omega
+      · have : (127 : Int) * mix ≤ (fp - 128) * mix := Int.mul_le_mul_of_nonpos_right (by omega) hm
+        omega
+    have hhi : (fp - 128) * mix ≤ 12800 := by
+      rcases Int.le_total 0 mix with hm | hm
+      · have : (fp - 128) * mix ≤ 127 * mix := Int.mul_le_mul_of_nonneg_right (by omega) hm
+        omega
+      · have : (fp - 128) * mix ≤ (-128) * mix := Int.mul_le_mul_of_nonpos_right (by omega) hm
+        omega
+    exact tdiv100_bounds _ ⟨hlo, hhi⟩
+
+/-- non-trivial instance: panbrello −40 on a channel panned to 0x30 with a pan envelope at 48 and random swing 3
+in IT mode; separation 60 vs −60 and 0 -/
+example :
+    let p : PanSrc := { panVal := 0x30, panbrello := -40, penv := 48, rpv := 3, itMode := true }
+    processPan p 60 false false = -50 ∧ processPan p (-60) false false = 50 ∧ processPan p 0 false false = 0 ∧
+    volLR 1000 (processPan p 60 false false) = (178000, 78000) ∧ volLR 1000 (processPan p (-60) false false) = (78000, 178000) := by
+  decide
 
 /-- **A whole voice tick mirrors**: with the pan negated (and stereo sample channels exchanged),
 left/right state exchanged, the voice adds the left/right-exchanged frames and ends in the
